@@ -88,7 +88,7 @@ func uobs(t *tyNode, target reflect.Value, err error, panicked bool, pmsg string
 }
 
 // reifyUnpackCase: Unpack cfgData into a pre-filled value of type t.
-func reifyUnpackCase(r *Rng, t *tyNode, cfgData map[string]interface{}, pol int, pz int) (Case, bool) {
+func reifyUnpackCase(r *Rng, t *tyNode, cfgData map[string]interface{}, pol int, pz int, fix func(reflect.Value)) (Case, bool) {
 	opts := []ucfg.Option{ucfg.PathSep(".")}
 	if p := policyOpts[pol]; p.opt != nil {
 		opts = append(opts, p.opt)
@@ -99,6 +99,9 @@ func reifyUnpackCase(r *Rng, t *tyNode, cfgData map[string]interface{}, pol int,
 	}
 	target := reflect.New(t.goType())
 	target.Elem().Set(randGoValue(r, t, pz))
+	if fix != nil {
+		fix(target.Elem())
+	}
 	oldC := coqGV(t, target.Elem())
 	oldD := descGV(target.Elem())
 	cfgC := coqValue(ucfg.VerifDump(cfg))
@@ -177,6 +180,41 @@ func (v *vOuter) Validate() error {
 	return nil
 }
 
+// primitive types with InitDefaults: the default is what an absent (or null) setting leaves
+// in the field, and the field's validate tag / the type's Validate apply to it
+type vNeg int
+
+func (v *vNeg) InitDefaults() { *v = -5 }
+
+type vPos int
+
+func (v *vPos) InitDefaults() { *v = 3 }
+
+type vChk int
+
+func (v *vChk) InitDefaults() { *v = -1 }
+func (v vChk) Validate() error {
+	if v < 0 {
+		return fmt.Errorf("negative")
+	}
+	return nil
+}
+
+type vInit struct {
+	A vNeg `config:"a" validate:"min=1"`
+	B vPos `config:"b" validate:"min=1"`
+	C vChk `config:"c"`
+}
+
+var vInitTy = &tyNode{Kind: "struct", Fields: []tyField{
+	{"A", "a", "min=1", &tyNode{Kind: "prim", Prim: primKinds[1]}},
+	{"B", "b", "min=1", &tyNode{Kind: "prim", Prim: primKinds[1]}},
+	{"C", "c", "", &tyNode{Kind: "prim", Prim: primKinds[1]}}}}
+
+func vInitGV(x vInit) string {
+	return fmt.Sprintf("(GStructV [GP (CI (%d)); GP (CI (%d)); GP (CI (%d))])", int(x.A), int(x.B), int(x.C))
+}
+
 var vRangeTy = &tyNode{Kind: "struct", Fields: []tyField{
 	{"Min", "min", "", &tyNode{Kind: "prim", Prim: primKinds[1]}},
 	{"Max", "max", "", &tyNode{Kind: "prim", Prim: primKinds[1]}},
@@ -189,6 +227,38 @@ var vOuterTy = &tyNode{Kind: "struct", Fields: []tyField{
 
 func hookedCases(g *Gen) {
 	r := g.R
+	// (c) defaults of primitive types meet the validators
+	for i := 0; i < 12; i++ {
+		cfgI := map[string]interface{}{}
+		for _, k := range []string{"a", "b", "c"} {
+			switch r.Intn(4) {
+			case 0:
+				cfgI[k] = int64(1 + r.Intn(9))
+			case 1:
+				cfgI[k] = nil
+			case 2:
+				cfgI[k] = int64(-r.Intn(3))
+			}
+		}
+		x := vInit{A: vNeg(r.Intn(4)), B: vPos(r.Intn(4)), C: vChk(r.Intn(4))}
+		c, _ := ucfg.NewFrom(cfgI)
+		old, oldD := vInitGV(x), fmt.Sprintf("%+v", x)
+		var err error
+		p, pm := guard(func() { err = c.Unpack(&x) })
+		obs, d := "UPanic", "PANIC "+pm
+		if !p && err != nil {
+			name, path := "EOther", ""
+			if e, ok := err.(ucfg.Error); ok {
+				name, path = reasonName(e), e.Path()
+			}
+			obs, d = fmt.Sprintf("(UErr %s %s)", name, coqStr(path)), descErr(err)
+		} else if !p {
+			obs, d = "(UOk "+vInitGV(x)+")", fmt.Sprintf("%+v", x)
+		}
+		g.Add(Case{Coq: fmt.Sprintf("CHooked %s %s %s %s %s", coqStr("vInit"), vInitTy.coq(), old, obs, vInitGV(x)),
+			Desc: map[string]interface{}{"kind": "hooked", "type": "vInit (fields of primitive types with InitDefaults; validate tags min=1, min=1 and a Validate hook rejecting negatives)", "prefilled": oldD, "config": descTree(cfgI), "observed": d, "after": fmt.Sprintf("%+v", x)},
+			Tags: []string{"hooked:vInit"}, Nontrivial: true})
+	}
 	for i := 0; i < 40; i++ {
 		mk := func() vRange { return vRange{r.Intn(5), 5 + r.Intn(5), []string{"a", "b"}[r.Intn(2)]} }
 		cfgR := map[string]interface{}{}
@@ -249,6 +319,10 @@ func genReify(g *Gen, mode string) {
 	tcfg := typeGenCfg{Validators: mode == "C04" || mode == "C13", Handling: mode == "C13" || mode == "C04", Inline: true, Ifaces: mode != "C06", CfgPtr: mode != "C06" && mode != "C14"}
 	for i := 0; i < g.N; i++ {
 		t := randStruct(r, 0, tcfg)
+		isList := r.P(1, 3)
+		if isList {
+			t = listStruct(r, tcfg)
+		}
 		g.Mark(map[string]interface{}{"type": t.desc()})
 		switch mode {
 		case "C14":
@@ -269,11 +343,88 @@ func genReify(g *Gen, mode string) {
 			if mode == "C13" {
 				pz = 1
 			}
-			if c, ok := reifyUnpackCase(r, t, cfgData, []int{0, 0, 1, 2, 3}[r.Intn(5)], pz); ok {
+			if isList { // the list is usually pre-filled and usually mentioned
+				pz = 1
+				if _, ok := cfgData["l"]; !ok && r.P(3, 4) {
+					for _, f := range t.Fields {
+						if f.GoName == "L" {
+							cfgData["l"] = randSettingFor(r, f.T, pbad)
+						}
+					}
+				}
+			}
+			var fix func(reflect.Value)
+			if isList && r.P(1, 3) {
+				cfgData, fix = lateFailure(r, t)
+			}
+			if c, ok := reifyUnpackCase(r, t, cfgData, []int{0, 0, 1, 2, 3}[r.Intn(5)], pz, fix); ok {
 				g.Add(c)
 			}
 		}
 	}
+}
+
+// lateFailure: for a listStruct type, a pre-filled list of n valid entries and a configuration
+// with k <= n valid entries for it whose one fault comes late - in the last entry or in the field
+// after the list - so that entries have been converted before Unpack fails
+func lateFailure(r *Rng, t *tyNode) (map[string]interface{}, func(reflect.Value)) {
+	var lf tyField
+	lAt := 0
+	for i, f := range t.Fields {
+		if f.GoName == "L" {
+			lf, lAt = f, i
+		}
+	}
+	elem := lf.T.Elem
+	base := elem
+	if base.Kind == "ptr" {
+		base = base.Elem
+	}
+	okInt := func(vt string) int64 {
+		if strings.Contains(vt, "0x10") {
+			return 16
+		}
+		return 5
+	}
+	setting := func() interface{} {
+		switch {
+		case base.Kind == "struct":
+			return map[string]interface{}{"p": okInt(base.Fields[0].VTag), "q": "v"}
+		case base.Prim.name == "string":
+			return "v"
+		}
+		return int64(5)
+	}
+	n := 1 + r.Intn(3)
+	k := 1 + r.Intn(n)
+	l := make([]interface{}, k)
+	for i := range l {
+		l[i] = setting()
+	}
+	cfg := map[string]interface{}{"l": l}
+	zOK := int64(5)
+	for _, f := range t.Fields {
+		if f.GoName == "Z" {
+			zOK = okInt(f.VTag)
+		}
+	}
+	switch {
+	case lAt == 0 && r.Bool():
+		cfg["z"] = "notanumber" // the field after the list fails
+	case k >= 2:
+		l[k-1] = []interface{}{"x", "y"} // the last entry fails
+		cfg["z"] = zOK
+	default:
+		cfg["z"] = zOK // no failure: the same shape on the success path
+	}
+	fix := func(v reflect.Value) {
+		s := reflect.MakeSlice(lf.T.goType(), n, n)
+		for i := 0; i < n; i++ {
+			s.Index(i).Set(randGoValue(r, elem, 0))
+		}
+		v.Field(lAt).Set(s)
+	}
+	return cfg, fix
 }
 
 // ---- C14: one injected fault at a known setting ------------------------------------------------
@@ -448,9 +599,40 @@ func reifyFaultCase(r *Rng, t *tyNode) (Case, bool) {
 			}
 		}
 	}
+	// sometimes the list the faulty entry lives in is spelled as one string that is expanded
+	// and parsed only when the setting is read ("${first},e1,e2"): the error must still name
+	// the entry by its full path, and the source
+	unpackOpts := []ucfg.Option{ucfg.PathSep(".")}
+	if segs := strings.Split(f.path, "."); mergedTag == "built:once" && len(segs) >= 2 && r.P(1, 3) {
+		if _, aerr := strconv.Atoi(segs[len(segs)-1]); aerr == nil {
+			parent := segs[:len(segs)-1]
+			lv, ok1 := lookupDotted(valid, parent).([]interface{})
+			lf, ok2 := lookupDotted(cfgData, parent).([]interface{})
+			if sv, sf := spliceList(lv), spliceList(lf); ok1 && ok2 && len(lv) == len(lf) && sv != "" && sf != "" {
+				validX := deepCopy(valid).(map[string]interface{})
+				faultX := deepCopy(cfgData).(map[string]interface{})
+				if replaceAt(validX, parent, sv) && replaceAt(faultX, parent, sf) {
+					validX["verif_first"], faultX["verif_first"] = lv[0], lf[0]
+					okX := false
+					if vc, verr := ucfg.NewFrom(validX, ucfg.PathSep("."), ucfg.VarExp); verr == nil {
+						vt := reflect.New(t.goType())
+						var uerr error
+						if p, _ := guard(func() { uerr = vc.Unpack(vt.Interface(), ucfg.PathSep("."), ucfg.VarExp) }); !p && uerr == nil {
+							okX = true
+						}
+					}
+					if fc, ferr := ucfg.NewFrom(faultX, ucfg.PathSep("."), ucfg.VarExp, ucfg.MetaData(ucfg.Meta{Source: source})); okX && ferr == nil {
+						cfg, cfgData = fc, faultX
+						unpackOpts = append(unpackOpts, ucfg.VarExp)
+						mergedTag = "built:expanded-list"
+					}
+				}
+			}
+		}
+	}
 	target := reflect.New(t.goType())
 	var uerr error
-	panicked, pmsg := guard(func() { uerr = cfg.Unpack(target.Interface(), ucfg.PathSep(".")) })
+	panicked, pmsg := guard(func() { uerr = cfg.Unpack(target.Interface(), unpackOpts...) })
 	obs, d := uobs(t, target.Elem(), uerr, panicked, pmsg)
 	msg := ""
 	typed := true
@@ -494,6 +676,59 @@ func deepCopy(t interface{}) interface{} {
 }
 
 // lookupDotted follows name and index segments through maps and lists.
+// spliceList spells a list of plain scalars as "${verif_first},e1,e2" ("" when it cannot)
+func spliceList(l []interface{}) string {
+	if len(l) < 2 {
+		return ""
+	}
+	out := "${verif_first}"
+	for _, e := range l[1:] {
+		var s string
+		switch x := e.(type) {
+		case int64, uint64, bool:
+			s = fmt.Sprint(x)
+		case string:
+			s = x
+			if s == "" || strings.ContainsAny(s, " ,${}[]:'\"\\") {
+				return ""
+			}
+		default:
+			return ""
+		}
+		out += "," + s
+	}
+	switch x := l[0].(type) {
+	case int64, uint64, bool:
+	case string:
+		if x == "" || strings.ContainsAny(x, " ,${}[]:'\"\\") {
+			return ""
+		}
+	default:
+		return ""
+	}
+	return out
+}
+
+// replaceAt sets the value at the path segs of the tree root
+func replaceAt(root map[string]interface{}, segs []string, v interface{}) bool {
+	if len(segs) == 0 {
+		return false
+	}
+	switch x := lookupDotted(root, segs[:len(segs)-1]).(type) {
+	case map[string]interface{}:
+		x[segs[len(segs)-1]] = v
+		return true
+	case []interface{}:
+		i, err := strconv.Atoi(segs[len(segs)-1])
+		if err != nil || i < 0 || i >= len(x) {
+			return false
+		}
+		x[i] = v
+		return true
+	}
+	return false
+}
+
 func lookupDotted(t interface{}, segs []string) interface{} {
 	cur := t
 	for _, sg := range segs {
